@@ -111,7 +111,14 @@ def build(rng, e, form, null=False, long=False):
     vector, identity matrix, zero angle: where shortcuts that hand out a ready-made result live)"""
     def val(spec):
         v = gen_extra(rng, spec)
-        if null:
+        if null == 'over1' and spec[0] in ('R3', 'T3') and isinstance(v, np.ndarray):
+            # a quarter-turn frame (signed permutation: the singular configuration of every angle order) whose +-1 entries exceed 1
+            # by two ulp, as products of rotations leave them: still a member by every test of the library
+            P = gen.exact_so3(rng)
+            P = P * (1 + 2 * np.finfo(float).eps)
+            v = np.array(v, dtype=np.float64)
+            v[:3, :3] = P
+        elif null:
             k = spec[0]
             if k in ('V', 'VSMALL3', 'UNIT3', 'VTINY6', 'AN3') and isinstance(v, np.ndarray):
                 v = np.zeros_like(v)
@@ -325,6 +332,17 @@ def operand_for(rng, c, name):
     return outs
 
 
+def parallel_lines(rng, x):
+    """lines parallel to the first line of x, of the same and of the opposite sense (and the line itself reversed)"""
+    sm = S()
+    try:
+        w = np.asarray(x.data[0][3:6], dtype=np.float64)
+        return [(sm.Plucker.PointDir(gen.vec(rng, 3, 1e-1, 1e1), w * 1.5),), (sm.Plucker.PointDir(gen.vec(rng, 3, 1e-1, 1e1), -w),),
+                (sm.Plucker.PointDir(gen.vec(rng, 3, 1e-1, 1e1), -2.0 * w),)]
+    except Exception:
+        return []
+
+
 METHOD_ARGS = {   # methods that need arguments: name -> list of argument tuples builders
     'interp': lambda rng, c, x: [(0.3,)] + ([(0.4, make_recv(rng, c, 1))] if c == 'UnitQuaternion' else []),
     'delta': lambda rng, c, x: [(make_recv(rng, c, 1),)],
@@ -336,7 +354,7 @@ METHOD_ARGS = {   # methods that need arguments: name -> list of argument tuples
     'cross': lambda rng, c, x: [(make_recv(rng, 'SpatialVelocity', 1),), (make_recv(rng, 'SpatialForce', 1),)],
     'closest': lambda rng, c, x: [(gen.vec(rng, 3, 1e-1, 1e1),)], 'contains': lambda rng, c, x: [(gen.vec(rng, 3, 1e-1, 1e1),)],
     'point': lambda rng, c, x: [(0.5,), ([0.1, 0.2, 0.3],)],
-    'isparallel': lambda rng, c, x: [(make_recv(rng, c, 1),)], 'distance': lambda rng, c, x: [(make_recv(rng, c, 1),)],
+    'isparallel': lambda rng, c, x: [(make_recv(rng, c, 1),)] + parallel_lines(rng, x), 'distance': lambda rng, c, x: [(make_recv(rng, c, 1),)] + parallel_lines(rng, x),
     'commonperp': lambda rng, c, x: [(make_recv(rng, c, 1),)], 'intersects': lambda rng, c, x: [(make_recv(rng, c, 1),)],
     'intersect_plane': lambda rng, c, x: [(gen.vec(rng, 4, 1e-1, 1e1),), (S().Plane(gen.vec(rng, 4, 1e-1, 1e1)),)],
     'SE3': lambda rng, c, x: [()] if c != 'SE2' else [(), (1.5,)],
@@ -680,14 +698,25 @@ def run_threads(ctx, p):
     bad = []
     old = sys.getswitchinterval()
     sys.setswitchinterval(1e-6)
+    # what the schedule actually did: calls made, and calls that began while a call of another thread was under way
+    lock = threading.Lock()
+    seen = dict(calls=0, overlapped=0, active=0)
 
     def worker(k):
         order = np.random.default_rng(p['seed'] + k).permutation(len(cases))
         for _ in range(p['rounds']):
             for j in order:
                 name, call, refv = cases[j]
+                with lock:
+                    seen['calls'] += 1
+                    seen['overlapped'] += seen['active'] > 0
+                    seen['active'] += 1
                 try:
-                    out = call()
+                    try:
+                        out = call()
+                    finally:
+                        with lock:
+                            seen['active'] -= 1
                     if not same(out, refv):
                         bad.append((name, core.short(out, 120), core.short(refv, 120)))
                 except Exception as ex:
@@ -705,6 +734,10 @@ def run_threads(ctx, p):
     names = sorted(set(b[0] for b in bad))
     ctx.judge('deterministic', not bad, dict(api=names[0] if names else 'threads', kind='result_depends_on_concurrent_calls'),
               lambda: 'run from 4 threads, %s returned %s; alone it returns %s (%d mismatches in %s)' % (bad[0][0], bad[0][1], bad[0][2], len(bad), names))
+    ctx.extra['thread_calls'] = ctx.extra.get('thread_calls', 0) + seen['calls']
+    ctx.extra['thread_calls_overlapping_another_threads_call'] = ctx.extra.get('thread_calls_overlapping_another_threads_call', 0) + seen['overlapped']
+    if seen['calls'] and seen['overlapped'] < seen['calls'] // 20:
+        ctx.harness_errors.append('threads: only %d of %d calls overlapped a call of another thread (no interleaving was exercised)' % (seen['overlapped'], seen['calls']))
     ctx.cell('threads', len(cases))
     ctx.nontrivial('threads', p['seed'])
 
@@ -787,6 +820,9 @@ def run(ctx):
                     largs, lkw, lrecv = build(rng, e, form, long=True)
                     lrd = None if lrecv is None else [type(lrecv).__name__, [np.array(v) for v in lrecv.data]]
                     drive(RUNNERS, ctx, 'call', dict(entry=ei, args=largs, kwargs=lkw, recv=lrd, form=form + ':long', alt_args=None, alt_kwargs=None))
+                if form == 'array' and recv is None and _ < max(2, reps // 4) and any(s_[0] in ('R3', 'T3') for s_ in list(e['args']) + list(e['kwargs'].values())):
+                    oargs, okw, _r = build(rng, e, form, null='over1')
+                    drive(RUNNERS, ctx, 'call', dict(entry=ei, args=oargs, kwargs=okw, recv=None, form='over1', alt_args=alt[0], alt_kwargs=alt[1]))
                 if form == 'array' and recv is None:
                     nargs, nkw, _ = build(rng, e, form, null=True)
                     drive(RUNNERS, ctx, 'call', dict(entry=ei, args=nargs, kwargs=nkw, recv=None, form='null', alt_args=alt[0], alt_kwargs=alt[1]))
